@@ -19,7 +19,7 @@ import (
 
 func TestMain(m *testing.M) {
 	document.SetGlobalLevel(document.LogLevelSilent)
-	kit.TestMain(m, 1500, 6000)
+	kit.TestMain(m, 2500, 20000)
 }
 
 // Op is one call of the history: the shared op data plus the style argument of the style-API ops.
